@@ -256,4 +256,30 @@ theorem cmdXaddSetup_norm (db : Db) (args : List Bytes) :
     normDb (cmdXaddSetup db args).1 = normDb (cmdXaddSetup (normDb db) args).1 := by
   unfold cmdXaddSetup; norm_cmd
 
+/-- Every command commutes with the view: the view after the command is a function of the view before it
+    (and of the arguments and the draw) — not of the instants. -/
+theorem stepDb_norm (q : Quirks) (db : Db) (now now' : Nat) (name : String) (args : List Bytes) (obs : Option (List Bytes)) :
+    normDb (stepDb q db now name args obs).1 = normDb (stepDb q (normDb db) now' name args obs).1 := by
+  by_cases hw : name ∈ Spec.writeNames
+  · unfold stepDb
+    split
+    all_goals first
+      | apply cmdSet_norm | apply cmdMset_norm | apply cmdGetset_norm | apply cmdSetnx_norm | apply cmdSetex_norm
+      | apply cmdAppend_norm | apply cmdSetrange_norm | apply cmdIncrDecr_norm | apply cmdIncrbyDecrby_norm
+      | apply cmdDel_norm | apply cmdRename_norm | apply cmdExpire_norm | apply cmdPersist_norm | apply cmdPush_norm
+      | apply cmdPop_norm | apply cmdLset_norm | apply cmdLtrim_norm | apply cmdLrem_norm | apply cmdSadd_norm
+      | apply cmdSrem_norm | apply cmdSpop_norm | apply cmdHset_norm | apply cmdHdel_norm | apply cmdHincrby_norm
+      | apply cmdZaddSetup_norm | apply cmdXaddSetup_norm
+      | exact absurd hw (by decide)
+      | (split <;> simp)
+      | simp
+  · rw [stepDb_readonly q db now name args obs hw, stepDb_readonly q (normDb db) now' name args obs hw]
+    simp
+
+/-- Two databases with the same view have the same view after the same command, run at any two instants. -/
+theorem stepDb_sim (q : Quirks) (db1 db2 : Db) (h : normDb db1 = normDb db2) (now1 now2 : Nat) (name : String)
+    (args : List Bytes) (obs : Option (List Bytes)) :
+    normDb (stepDb q db1 now1 name args obs).1 = normDb (stepDb q db2 now2 name args obs).1 := by
+  rw [stepDb_norm q db1 now1 0, stepDb_norm q db2 now2 0, h]
+
 end Ferrous.Aof
